@@ -488,7 +488,36 @@ REGISTRIES: list[list[tuple[str, str]]] = [   # (kind, filter): filter in 'all' 
     [('event', 'all'), ('delete', 'all')],
     [('timer', 'all'), ('update', 'all'), ('event', 'all')],
     [('delete', 'label'), ('delete_optional', 'all'), ('daemon', 'label')],
+    # several deletion handlers per resource, optional before mandatory (the first match must not decide)
+    [('delete_optional', 'all'), ('delete', 'all')],
+    [('delete_optional', 'label'), ('delete', 'all')],
+    [('delete_optional', 'all'), ('delete', 'label')],
+    [('delete_optional', 'annot'), ('delete_optional', 'all'), ('delete', 'field'), ('update', 'all')],
+    [('update', 'all'), ('delete_optional', 'when_true'), ('delete', 'present')],
+    [('delete', 'never'), ('delete_optional', 'all'), ('delete', 'annot')],
+    [('timer', 'never'), ('daemon', 'annot')],
+    [('daemon', 'field'), ('delete_optional', 'all'), ('delete', 'when_true')],
 ]
+FILTERS = ['all', 'all', 'label', 'annot', 'field', 'present', 'when_true', 'never']
+
+
+def _generated_registries() -> list[list[tuple[str, str]]]:
+    import random as _random
+    g = _random.Random(606)              # fixed: the list is part of the case space (replay files index into it)
+    out = []
+    for _ in range(28):
+        n = g.choice([2, 3, 3, 4, 5])
+        kinds = ['delete', 'delete_optional', 'delete', 'delete_optional', 'update', 'create', 'daemon', 'timer']
+        out.append([(g.choice(kinds), g.choice(FILTERS)) for _ in range(n)])
+    return out
+
+
+REGISTRIES += _generated_registries()
+
+
+def filter_matches(flt: str, labelled: bool) -> bool:
+    """The harness's own reading of the filters it registers: which of them an object (labelled or not) passes."""
+    return True if flt in ('all', 'when_true') else False if flt == 'never' else labelled
 
 
 def const(v: bool) -> Any:
@@ -502,14 +531,25 @@ class Reg:
         self.env, self.decls = env, decls
         self.reg = env.registries.OperatorRegistry()
         self.invoked: list[str] = []
+        self.ids: list[str] = []
         for i, (kind, flt) in enumerate(decls):
             deco, kwargs, _ = HANDLER_KINDS[kind]
             kw: dict[str, Any] = dict(kwargs)
             if flt == 'label':
                 kw['labels'] = {'app': 'x'}
+            elif flt == 'present':
+                kw['labels'] = {'app': env.kopf.PRESENT}
+            elif flt == 'annot':
+                kw['annotations'] = {'note': 'y'}
+            elif flt == 'field':
+                kw['field'], kw['value'] = 'spec.a', 1
+            elif flt == 'when_true':
+                kw['when'] = const(True)
             elif flt == 'never':
                 kw['when'] = const(False)
             getattr(env.kopf.on, deco)('kopfexamples', registry=self.reg, id=f'h{i}', **kw)(self._mkfn(f'h{i}', kind))
+            sub = self.reg._spawning if kind in ('daemon', 'timer') else self.reg._watching if kind == 'event' else self.reg._changing
+            self.ids.append(sub.get_all_handlers()[-1].id)          # (a field filter is appended to the id)
 
     def _mkfn(self, name: str, kind: str) -> Any:
         invoked = self.invoked
@@ -524,9 +564,9 @@ class Reg:
         """The harness's own reading: some registered handler that needs the finalizer matches this object."""
         labelled = body.get('metadata', {}).get('labels', {}).get('app') == 'x'
         for i, (kind, flt) in enumerate(self.decls):
-            if not HANDLER_KINDS[kind][2] or flt == 'never' or (flt == 'label' and not labelled):
+            if not HANDLER_KINDS[kind][2] or not filter_matches(flt, labelled):
                 continue
-            if kind in ('daemon', 'timer') and f'h{i}' in forever:
+            if kind in ('daemon', 'timer') and self.ids[i] in forever:
                 continue
             return True
         return False
@@ -584,7 +624,8 @@ def decide_body(r: Any, blocked: str, deleting: bool, labelled: bool) -> dict:
         md['deletionTimestamp'] = '2020-01-01T00:00:00Z'
     if labelled:
         md['labels'] = {'app': 'x'}
-    return {'apiVersion': 'kopf.dev/v1', 'kind': 'KopfExample', 'metadata': md, 'spec': {'a': 1}}
+        md['annotations'] = {'note': 'y'}
+    return {'apiVersion': 'kopf.dev/v1', 'kind': 'KopfExample', 'metadata': md, 'spec': {'a': 1 if labelled else 2}}
 
 
 def run_decide(ctx: fw.Ctx, env: Env, D: dict[str, list[fw.Case]], n: int, only: list | None = None) -> None:
@@ -596,7 +637,7 @@ def run_decide(ctx: fw.Ctx, env: Env, D: dict[str, list[fw.Case]], n: int, only:
     # the systematic core first: every registry x body state x deleting x labelled, plain event, consistent, nothing carried
     core = [(g, b, d, l, 'MODIFIED', 'none', 'empty', sd, cd, None, False)
             for g in range(len(REGISTRIES)) for b in ['no', 'own', 'own+foreign'] for d in [False, True] for l in [False, True]
-            for sd in [(), (3,)] for cd in [(), (5,)]]
+            for sd in [(), (3,)] for cd in [(), (5,)] if g < 16 or (b != 'own+foreign' and not sd and not cd)]
     cases = core + space[:max(0, n - len(core))] if only is None else only
     resource = env.resource(False)
     indexers = env.indexing.OperatorIndexers()
@@ -620,7 +661,7 @@ def run_decide(ctx: fw.Ctx, env: Env, D: dict[str, list[fw.Case]], n: int, only:
         patch0_empty = not patch
         forever: set[str] = set()
         if forever_on:
-            forever = {f'h{i}' for i, (k, _) in enumerate(REGISTRIES[g]) if k in ('daemon', 'timer')}
+            forever = {R.ids[i] for i, (k, _) in enumerate(REGISTRIES[g]) if k in ('daemon', 'timer')}
         ctime = {'none': None, 'zero': 0.0, 'some': 1000.0}[ct]
         orc = Oracles(env, list(sd), list(cd), unslept)
         orc.install()
@@ -707,6 +748,68 @@ def run_decide(ctx: fw.Ctx, env: Env, D: dict[str, list[fw.Case]], n: int, only:
 
 
 # ------------------------------------------------------------------------------------------------
+# D: requires_finalizer of the real registries on generated registrations
+# ------------------------------------------------------------------------------------------------
+
+def run_requires(ctx: fw.Ctx, env: Env, D: dict[str, list[fw.Case]], only: list | None = None) -> None:
+    """registry._changing.requires_finalizer(cause) / registry._spawning.requires_finalizer(cause, excluded) on every registry of
+    REGISTRIES x (labelled, deleting, forever_stopped subset), against the model's existsb over the handlers as the real filters see
+    them, and against the harness's own reading: some mandatory deletion handler / daemon / timer whose filter the object passes."""
+    r = ctx.rng
+    resource = env.resource(False)
+    indexers = env.indexing.OperatorIndexers()
+    space = [(g, lab, dele, fo) for g in range(len(REGISTRIES)) for lab in (False, True) for dele in (False, True) for fo in (0, 1, 2)]
+    for (g, labelled, deleting, fo) in (space if only is None else only):
+        decls = REGISTRIES[g]
+        R = Reg(env, decls)
+        obj = decide_body(r, 'own' if fo == 1 else 'no', deleting, labelled)
+        body = env.bodies.Body(obj)
+        spawn_ids = [R.ids[i] for i, (k, _) in enumerate(decls) if k in ('daemon', 'timer')]
+        forever = set() if fo == 0 else set(spawn_ids) if fo == 1 else set(spawn_ids[:1])
+        det = env.processing._detect_causes(
+            indexers=indexers, registry=R.reg, settings=env.settings, resource=resource, raw_event={'type': 'MODIFIED', 'object': obj},
+            body=body, patch=env.patches.Patch({}, body=body), memory=None_memory(env), local_logger=env.logger, event_logger=env.logger)
+        data = {'layer': 'function', 'what': 'requires', 'registry_index': g, 'registry': decls, 'labelled': labelled, 'deleting': deleting,
+                'forever_stopped': sorted(forever), 'forever_choice': fo}
+        own_chg = any(HANDLER_KINDS[k][2] and k.startswith('delete') and filter_matches(f, labelled) for k, f in decls)
+        own_sp = any(k in ('daemon', 'timer') and filter_matches(f, labelled) and R.ids[i] not in forever for i, (k, f) in enumerate(decls))
+        if det.changing_cause is not None:
+            hs = R.reg._changing.get_all_handlers()
+            real = bool(R.reg._changing.requires_finalizer(cause=det.changing_cause))
+            term = ('Bool.eqb (fz_chg_requires ' + cq.clist(
+                f'{{| ch_reqfin := {cq.cbool(bool(h.requires_finalizer))}; ch_prematch := {cq.cbool(bool(env.registries.prematch(handler=h, cause=det.changing_cause)))} |}}'
+                for h in hs) + f') {cq.cbool(real)}')
+            D['fz_requires'].append(fw.Case(term, {**data, 'side': 'changing', 'real': real}))
+            ctx.count('requires_changing', f'{real}:{len([1 for k, _ in decls if k.startswith("delete")])}-deletion-handlers')
+            if real != own_chg:
+                ctx.fail('the changing registry says the finalizer is %s although %s mandatory deletion handler matches the object'
+                         % ('required' if real else 'not required', 'no' if real else 'a'), {**data, 'side': 'changing'}, observed=real, expected=own_chg,
+                         sig='fn-requires-wrong')
+            if own_chg and len([1 for k, f in decls if k.startswith('delete') and filter_matches(f, labelled)]) >= 2:
+                ctx.nontriv(['requires', g, labelled, deleting])
+        if det.spawning_cause is not None:
+            hs = R.reg._spawning.get_all_handlers()
+            real = bool(R.reg._spawning.requires_finalizer(cause=det.spawning_cause, excluded=forever))
+            term = ('Bool.eqb (fz_spawn_requires ' + cq.clist(
+                f'{{| sh_reqfin := {cq.cbool(bool(h.requires_finalizer))}; sh_match := {cq.cbool(bool(env.registries.match(handler=h, cause=det.spawning_cause)))}; '
+                f'sh_excluded := {cq.cbool(h.id in forever)} |}}' for h in hs) + f') {cq.cbool(real)}')
+            D['fz_requires'].append(fw.Case(term, {**data, 'side': 'spawning', 'real': real}))
+            ctx.count('requires_spawning', f'{real}:{len(spawn_ids)}-daemons/timers')
+            if real != own_sp:
+                ctx.fail('the spawning registry says the finalizer is %s although %s daemon/timer matches the object'
+                         % ('required' if real else 'not required', 'no' if real else 'a'), {**data, 'side': 'spawning'}, observed=real, expected=own_sp,
+                         sig='fn-requires-wrong')
+
+
+def None_memory(env: Env) -> Any:
+    class _M:                       # _detect_causes only reads memo / noticed_by_listing / fully_handled_once
+        memo = env.ephemera.Memo()
+        noticed_by_listing = False
+        fully_handled_once = False
+    return _M()
+
+
+# ------------------------------------------------------------------------------------------------
 # entry points
 # ------------------------------------------------------------------------------------------------
 
@@ -727,11 +830,12 @@ def differential(ctx: fw.Ctx) -> None:
         return
     ctx.matchers['F601'] = c06_trace.match_f601
     env = Env()
-    D: dict[str, list[fw.Case]] = {k: [] for k in ('fz_ongoing', 'fz_blocked', 'fz_block', 'fz_allow', 'fz_edit', 'fz_patch_obj', 'fz_decide')}
+    D: dict[str, list[fw.Case]] = {k: [] for k in ('fz_ongoing', 'fz_blocked', 'fz_block', 'fz_allow', 'fz_edit', 'fz_patch_obj', 'fz_decide', 'fz_requires')}
     try:
         run_finalizers(ctx, env, D, ctx.scale(250, 2500))
         run_patch_obj(ctx, env, D, ctx.scale(300, 2500))
-        run_decide(ctx, env, D, ctx.scale(1000, 6000))
+        run_decide(ctx, env, D, ctx.scale(1400, 6000))
+        run_requires(ctx, env, D)
         traces = c06_trace.run(ctx, env, ctx.scale(180, 2000))
         stops = c06_daemon.run_stop(ctx, env, ctx.scale(600, 6000))
         dtraces = c06_daemon.run_traces(ctx, env, ctx.scale(120, 1500))
@@ -757,7 +861,7 @@ def replay(ctx: fw.Ctx, body: dict) -> bool:
     case = body.get('case') or {}
     ctx.matchers['F601'] = c06_trace.match_f601
     env = Env()
-    D: dict[str, list[fw.Case]] = {k: [] for k in ('fz_ongoing', 'fz_blocked', 'fz_block', 'fz_allow', 'fz_edit', 'fz_patch_obj', 'fz_decide')}
+    D: dict[str, list[fw.Case]] = {k: [] for k in ('fz_ongoing', 'fz_blocked', 'fz_block', 'fz_allow', 'fz_edit', 'fz_patch_obj', 'fz_decide', 'fz_requires')}
     try:
         what = case.get('what')
         if what == 'trace':
@@ -769,6 +873,8 @@ def replay(ctx: fw.Ctx, body: dict) -> bool:
         elif what == 'stop':
             from kv.props import c06_daemon
             c06_daemon.run_stop(ctx, env, 0, only=[case])
+        elif what == 'requires':
+            run_requires(ctx, env, D, only=[(case['registry_index'], case['labelled'], case['deleting'], case['forever_choice'])])
         elif what == 'decide':
             fo = bool(case.get('forever_stopped'))
             params = (REGISTRIES.index([tuple(x) for x in case['registry']]), case['finalizers'], case['deleting'], case['labelled'], case['event'],
